@@ -104,11 +104,11 @@ DOMAIN = {"kappa": "pos", "rates": "pos", "freqs": "simplex", "shape": "pos", "p
 
 @st.composite
 def graph_case(draw):
-    g = draw(st.sampled_from(["G1", "G1", "G2", "G3", "G4"]))
+    g = draw(st.sampled_from(["G1", "G1", "G2", "G3", "G4", "G5"]))
     c = {"graph": g}
-    if g in ("G1", "G2", "G3"):
+    if g in ("G1", "G2", "G3", "G5"):
         fam = draw(st.sampled_from(["nucleotide", "nucleotide", "codon"])) if g == "G1" else "nucleotide"
-        kinds = {"G1": ("ratio", "shift"), "G2": ("unrooted_tensor",), "G3": ("ratio",)}[g]
+        kinds = {"G1": ("ratio", "shift"), "G2": ("unrooted_tensor",), "G3": ("ratio",), "G5": ("ratio", "shift")}[g]
         names = ["HKY", "GTR"] if fam == "nucleotide" else None
         like = draw(phylo.like_case(families=(fam,), nmax=4 if fam == "codon" else 5, tree_kinds=kinds, names=names))
         like["tip"] = "noamb"
@@ -127,6 +127,10 @@ def graph_case(draw):
     else:
         c["base"] = [draw(fl(-2, 2)) for _ in range(6)]
         c["pos"] = [draw(logu(0.2, 5)) for _ in range(3)]
+    if g == "G5":
+        # the tree model alone: its Jacobian call and a prior on the heights, nobody else reads the heights
+        c["observe_heights"] = draw(st.booleans())
+        c["wraps"] = {k: None for k in c["wraps"]}
     nops = draw(st.integers(2, 12))
     c["ops"] = [{"op": draw(st.sampled_from(OPS)), "t": draw(st.integers(0, 1000)), "u": [draw(fl(0.001, 0.999)) for _ in range(8)],
                  "flag": draw(st.booleans()), "mask": draw(st.integers(0, 2 ** 16 - 1)), "seed": draw(st.integers(0, 10 ** 6))} for _ in range(nops)]
@@ -162,6 +166,15 @@ def build_spec(c):
     like = c["like"]
     spec = phylo.like_spec(like)
     n = phylo.case_topo(like).n
+    if g == "G5":
+        tree = spec[-1]["tree_model"]
+        kind5 = like["tree"]["kind"]
+        pid = "root_height" if kind5 == "ratio" else "shifts"
+        spec = [spec[0], tree,
+                {"id": "prior.h", "type": "Distribution", "distribution": "torch.distributions.Exponential", "x": pid, "parameters": {"rate": tt.P("prior.h.rate", [0.3])}},
+                {"id": "joint", "type": "JointDistributionModel", "distributions": ["tree", "prior.h"]}]
+        dom = {l: (DOMAIN.get(l) if l in DOMAIN else "pos") for l in leaves_of(spec)}
+        return spec, dom
     joint = ["like"]
     for pid, kind in c["wraps"].items():
         if kind:
@@ -318,6 +331,8 @@ def body(c):
     dic = load(spec)
     leaves = [l for l in leaves_of(spec) if dom.get(l)]
     obs = observables(dic)
+    if c.get("observe_heights") is False:
+        obs = {k: v for k, v in obs.items() if not k.startswith("branch_lengths:")}
     names = sorted(obs)
     for nme in names:  # fill every cache
         observe(nme, obs[nme])
